@@ -333,11 +333,11 @@ impl Monitor for C05 {
             + match t {
                 Tier::Tiny => 6,
                 Tier::Quick => 200000,
-                Tier::Thorough => 240000,
+                Tier::Thorough => 400000,
             }
     }
     fn rule(&self) -> &'static str {
-        "case = one indexed text (classes of C03 incl. several sentinel-separated sequences and collections of 240-420 short sequences; length 1-300 quick / up to 5000 thorough), one Occ rate from \
+        "case = one indexed text (classes of C03 incl. several sentinel-separated sequences and collections of 240-420 short sequences; length 1-300 quick / up to 2000 thorough, one directed text of 400 000 symbols), one Occ rate from \
          {1,2-7,63-66,128,129,n,2n,65-124}, one SA sampling rate, and 4-24 sentinel-free patterns over the index alphabet (text substrings, substrings with one \
          symbol changed at front/middle/end, runs, random, longer than the text, single symbols, alphabet symbols absent from the text). Every search is done \
          through borrowed, owned and Arc components (results must be identical) and judged against naive substring search: result kind, matched suffix length, and \
@@ -404,7 +404,7 @@ impl Monitor for C05 {
             return self.text_case(ctx, rng, "many-sequences", t, threads_only);
         }
         let sentinel = pick_sentinel(rng);
-        let maxn = ctx.by_tier(30, 300, 5000);
+        let maxn = ctx.by_tier(30, 300, 2000);
         let n = match rng.below(10) {
             0 => rng.range(0, 3),
             1..=5 => rng.range(0, 40),
